@@ -2,8 +2,9 @@
    under the representation predicate `repr` (a chain of pairwise distinct allocated cells carrying
    the sequence), every operation succeeds (no nil dereference is reachable) and its pointer surgery
    implements the corresponding sll_* / dll_* function. *)
-From Coq Require Import ZArith List Bool Arith Lia.
+From Coq Require Import ZArith List Bool Arith Lia Permutation.
 From Gods Require Import Common.Cmp Spec.SeqSpec Model.Lists Model.Ops Model.LinkedCells Model.Machine.
+From Gods Require Import Proofs.ListsProofs Proofs.C03Proofs.
 Import ListNotations.
 Local Open Scope Z_scope.
 
@@ -754,7 +755,7 @@ Proof.
   { eexists. split; [reflexivity|]. apply repr_clear. }
   destruct (chain_split_within _ _ _ _ _ _ _ Hch W) as (a1 & x & a2 & l1 & v & l2 & -> & -> & Ha1 & Hl1).
   rewrite firstn_exact, skipn_S_exact by lia.
-  rewrite Hf, Hl. rewrite <- Ha1. rewrite (chain_walk_track _ _ _ _ _ _ _ None Hch). simpl hd_or.
+  rewrite Hf, <- Ha1. rewrite (chain_walk_track _ _ _ _ _ _ _ None Hch). simpl hd_or.
   destruct (NoDup_mid _ _ _ Hnd) as (Hx1 & Hx2 & Hnd1 & Hnd2 & Hdisj).
   pose proof Hch as Hch'. apply chain_app in Hch'; [|lia]. destruct Hch' as [Hc1 Hc2].
   simpl in Hc2. destruct Hc2 as [(cx & Hcx & Hvx & Hnx & _) Hc2].
@@ -765,28 +766,29 @@ Proof.
     intros a Ha. apply Hfr. intro Ha1'. exact (Hdisj a Ha1' Ha). }
   assert (Hjoin : fchain false h' None (a1 ++ a2) (l1 ++ l2) None).
   { apply chain_app; [lia|]. split; assumption. }
-  cbn [deref]. rewrite hd_or_app, last_or_app. simpl last_or.
+  cbn [deref]. rewrite hd_or_app. rewrite last_or_app in Hl. simpl last_or in Hl.
   destruct a1 as [|a a1'].
-  - (* the first element *) Show.
+  - (* the first element *)
     simpl hd_or. rewrite ptr_eqb_refl, Hcx. lsimpl. simpl is_nil. cbv iota.
     assert (Hne2 : a2 <> []).
-    { intro He. subst a2. destruct l2; [|discriminate]. destruct l1; [|discriminate].
-      unfold zlen in E1. simpl in E1. discriminate. }
-    rewrite ptr_eqb_last_false by assumption.
+    { intro He. subst a2. destruct l2; [|discriminate Hlen2].
+      destruct l1; [|simpl in Ha1, Hl1; lia].
+      unfold zlen in E1. simpl in E1. discriminate E1. }
+    rewrite Hl, ptr_eqb_last_false by assumption.
     simpl in Hh'. inversion Hh'; subst h'.
     eexists. split; [reflexivity|]. exists a2. lsimpl. rsplit.
     + exact Hnd2.
     + apply Forall_app in Hlt. destruct Hlt as [_ Hlt]. inversion Hlt; assumption.
     + exact Hjoin.
     + exact Hnx.
-    + rewrite Hl. simpl. apply last_or_nonempty. exact Hne2.
+    + rewrite Hl. apply last_or_nonempty. exact Hne2.
     + rewrite Hs. apply zlen_mid_minus.
   - (* not the first element *)
     rewrite ptr_eqb_hd_false; [|discriminate|exact Hx1].
     destruct (last_or_In (a :: a1') None) as (b & Hb & Hbin); [discriminate|].
     rewrite Hb in Hh' |- *. simpl is_nil in Hh' |- *. cbv iota in Hh'.
     destruct a2 as [|y a2'].
-    + simpl last_or. rewrite ptr_eqb_refl. lsimpl. rewrite Hcx, Hnx, Hh'.
+    + rewrite Hl. simpl last_or. rewrite ptr_eqb_refl. lsimpl. rewrite Hcx, Hnx, Hh'.
       eexists. split; [reflexivity|]. exists ((a :: a1') ++ []). lsimpl. rsplit.
       * exact (NoDup_mid_remove _ _ _ Hnd).
       * exact (Forall_mid_remove _ _ _ _ Hlt).
@@ -794,12 +796,919 @@ Proof.
       * rewrite Hf. reflexivity.
       * rewrite app_nil_r. symmetry. exact Hb.
       * rewrite Hs. apply zlen_mid_minus.
-    + rewrite ptr_eqb_last_false; [|discriminate|exact Hx2]. lsimpl. rewrite Hcx, Hnx, Hh'.
+    + rewrite Hl, ptr_eqb_last_false; [|discriminate|exact Hx2]. lsimpl. rewrite Hcx, Hnx, Hh'.
       eexists. split; [reflexivity|]. exists ((a :: a1') ++ y :: a2'). lsimpl. rsplit.
       * exact (NoDup_mid_remove _ _ _ Hnd).
       * exact (Forall_mid_remove _ _ _ _ Hlt).
       * exact Hjoin.
       * rewrite Hf. reflexivity.
-      * rewrite Hl, !last_or_app. reflexivity.
+      * rewrite Hl, last_or_app. reflexivity.
       * rewrite Hs. apply zlen_mid_minus.
+Qed.
+
+(* ================= the representation with the addresses exposed ================= *)
+Definition repr_al (dbl : bool) (d : llist) (al : list nat) (l : list Z) : Prop :=
+  NoDup al /\ Forall (fun a => (a < lnext_addr d)%nat) al /\
+  fchain dbl (lheap d) None al l None /\
+  lfirst d = hd_or al None /\ llast d = last_or al None /\ lsize d = zlen l.
+
+Lemma repr_al_intro : forall dbl d al l, repr_al dbl d al l -> repr dbl d l.
+Proof. intros dbl d al l H. exists al. exact H. Qed.
+
+Lemma nth_error_split_len : forall A (al : list A) (B : Type) (l : list B) k x, length al = length l ->
+  nth_error al k = Some x ->
+  exists a1 a2 l1 v l2, al = a1 ++ x :: a2 /\ l = l1 ++ v :: l2 /\ length a1 = k /\ length l1 = k.
+Proof.
+  intros A al B l k x Hlen Hx.
+  assert (Hk : (k < length al)%nat). { apply nth_error_Some. congruence. }
+  destruct (nth_error l k) as [v|] eqn:Ev; [|apply nth_error_None in Ev; lia].
+  apply nth_error_split in Hx. destruct Hx as (a1 & a2 & -> & H1).
+  apply nth_error_split in Ev. destruct Ev as (l1 & l2 & -> & H2).
+  exists a1, a2, l1, v, l2. auto.
+Qed.
+
+Lemma app_eq_len : forall A (a1 a2 b1 b2 : list A), a1 ++ a2 = b1 ++ b2 -> length a1 = length b1 ->
+  a1 = b1 /\ a2 = b2.
+Proof.
+  intros A. induction a1 as [|a a1 IH]; intros a2 [|b b1] b2 He Hl; simpl in Hl; try discriminate.
+  - auto.
+  - simpl in He. inversion He; subst. destruct (IH _ _ _ H1) as [-> ->]; [lia|]. auto.
+Qed.
+
+(* overwrite the value of the cell at a given position *)
+Lemma repr_al_set_val : forall dbl d al l k x v, repr_al dbl d al l -> nth_error al k = Some x ->
+  exists h c, hread (lheap d) x = Some c /\ nth_error l k = Some (cval c) /\
+    store (lheap d) (Some x) (with_val v) = Some h /\ repr_al dbl (set_heap d h) al (upd k v l).
+Proof.
+  intros dbl d al l k x v (Hnd & Hlt & Hch & Hf & Hl & Hs) Hx.
+  destruct (nth_error_split_len _ al _ l k x (chain_length _ _ _ _ _ _ _ _ Hch) Hx)
+    as (a1 & a2 & l1 & v0 & l2 & -> & -> & Ha1 & Hl1).
+  destruct (chain_mid_cell _ _ _ _ _ _ _ _ _ _ Hch) as (c & Hc & Hv & _); [lia|].
+  exists (hwrite (lheap d) x (with_val v c)), c. split; [exact Hc|]. split.
+  - rewrite nth_error_exact by exact Hl1. rewrite Hv. reflexivity.
+  - split; [apply store_some; exact Hc|].
+    rewrite upd_exact by exact Hl1. unfold repr_al. lsimpl. rsplit; try assumption.
+    + apply (chain_set_val _ _ _ _ _ _ _ v0); try assumption. lia.
+    + rewrite Hs, !zlen_app', !zlen_cons'. reflexivity.
+Qed.
+
+(* ---------- Swap ---------- *)
+Lemma swap_loop_S : forall h i j e cur e1 e2 f,
+  swap_loop h i j e cur e1 e2 (S f) =
+  if is_nil e1 || is_nil e2 then
+    match deref h cur with
+    | Some c => swap_loop h i j (e + 1) (cnext c) (if e =? i then cur else e1)
+                  (if e =? i then e2 else if e =? j then cur else e2) f
+    | None => None
+    end
+  else Some (e1, e2).
+Proof. reflexivity. Qed.
+
+Lemma swap_loop_done : forall h i j e cur x y fuel,
+  swap_loop h i j e cur (Some x) (Some y) fuel = Some (Some x, Some y).
+Proof. intros h i j e cur x y [|f]; reflexivity. Qed.
+
+Lemma nth_error_in_range : forall A (l : list A) i, 0 <= i < zlen l -> exists x, nth_error l (Z.to_nat i) = Some x.
+Proof.
+  intros A l i Hi. destruct (nth_error l (Z.to_nat i)) as [x|] eqn:E; [exists x; reflexivity|].
+  apply nth_error_None in E. unfold zlen in Hi. lia.
+Qed.
+
+Lemma swap_loop_ok : forall dbl h i j post pre p l fuel e1 e2,
+  fchain dbl h p (pre ++ post) l None ->
+  0 <= i < zlen (pre ++ post) -> 0 <= j < zlen (pre ++ post) -> i <> j ->
+  e1 = (if i <? zlen pre then nth_error (pre ++ post) (Z.to_nat i) else None) ->
+  e2 = (if j <? zlen pre then nth_error (pre ++ post) (Z.to_nat j) else None) ->
+  (length post < fuel)%nat ->
+  swap_loop h i j (zlen pre) (hd_or post None) e1 e2 fuel =
+    Some (nth_error (pre ++ post) (Z.to_nat i), nth_error (pre ++ post) (Z.to_nat j)).
+Proof.
+  intros dbl h i j. induction post as [|c post IH]; intros pre p l fuel e1 e2 Hch Hi Hj Hij He1 He2 Hfuel.
+  - destruct (nth_error_in_range _ _ _ Hi) as (x & Hx). destruct (nth_error_in_range _ _ _ Hj) as (y & Hy).
+    rewrite app_nil_r in Hi, Hj.
+    assert (Ei : i <? zlen pre = true) by (apply Z.ltb_lt; lia).
+    assert (Ej : j <? zlen pre = true) by (apply Z.ltb_lt; lia).
+    rewrite Ei, Hx in He1. rewrite Ej, Hy in He2. subst e1 e2. rewrite Hx, Hy. apply swap_loop_done.
+  - destruct (nth_error_in_range _ _ _ Hi) as (x & Hx). destruct (nth_error_in_range _ _ _ Hj) as (y & Hy).
+    destruct fuel as [|f]; [simpl in Hfuel; lia|].
+    rewrite swap_loop_S.
+    assert (Hcell : exists cc, hread h c = Some cc /\ cnext cc = hd_or post None).
+    { pose proof (chain_length _ _ _ _ _ _ _ _ Hch) as Hlen.
+      destruct (nth_error_split_len _ (pre ++ c :: post) _ l (length pre) c Hlen (nth_error_exact _ _ _ _ _ eq_refl))
+        as (a1 & a2 & l1 & v & l2 & Ha & -> & Ha1 & Hl1).
+      apply app_eq_len in Ha; [|lia]. destruct Ha as [<- Ha]. inversion Ha; subst a2.
+      destruct (chain_mid_cell _ _ _ _ _ _ _ _ _ _ Hch) as (cc & Hcc & _ & Hn & _); [lia|].
+      exists cc. auto. }
+    destruct Hcell as (cc & Hcc & Hn).
+    assert (Hcond : is_nil e1 || is_nil e2 = true \/ (i <? zlen pre = true /\ j <? zlen pre = true)).
+    { subst e1 e2. destruct (i <? zlen pre); [|left; reflexivity].
+      destruct (j <? zlen pre); [right; auto|left; apply orb_true_r]. }
+    destruct Hcond as [Hc|[Ei Ej]].
+    + rewrite Hc. simpl deref. rewrite Hcc, Hn.
+      specialize (IH (pre ++ [c]) p l f (if zlen pre =? i then Some c else e1)
+                     (if zlen pre =? i then e2 else if zlen pre =? j then Some c else e2)).
+      rewrite <- app_assoc in IH. simpl app in IH. rewrite (zlen_app' _ pre [c]) in IH. change (zlen [c]) with 1 in IH.
+      apply IH; try assumption.
+      * subst e1. destruct (Z.eqb_spec (zlen pre) i) as [E|E].
+        -- subst i. replace (zlen pre <? zlen pre + 1) with true by (symmetry; apply Z.ltb_lt; lia).
+           rewrite to_nat_zlen. symmetry. apply nth_error_exact. reflexivity.
+        -- destruct (Z.ltb_spec i (zlen pre)); destruct (Z.ltb_spec i (zlen pre + 1)); try lia; reflexivity.
+      * subst e2. destruct (Z.eqb_spec (zlen pre) i) as [E|E].
+        -- destruct (Z.ltb_spec j (zlen pre)); destruct (Z.ltb_spec j (zlen pre + 1)); try lia; reflexivity.
+        -- destruct (Z.eqb_spec (zlen pre) j) as [E'|E'].
+           ++ subst j. replace (zlen pre <? zlen pre + 1) with true by (symmetry; apply Z.ltb_lt; lia).
+              rewrite to_nat_zlen. symmetry. apply nth_error_exact. reflexivity.
+           ++ destruct (Z.ltb_spec j (zlen pre)); destruct (Z.ltb_spec j (zlen pre + 1)); try lia; reflexivity.
+      * simpl in Hfuel. lia.
+    + rewrite Ei, Hx in He1. rewrite Ej, Hy in He2. subst e1 e2. simpl is_nil. simpl orb. cbv iota.
+      rewrite Hx, Hy. reflexivity.
+Qed.
+
+Theorem c_swap_ok : forall dbl d l i j, repr dbl d l ->
+  exists d', c_swap d i j = Some d' /\ repr dbl d' (sll_swap i j l).
+Proof.
+  intros dbl d l i j H. pose proof H as (al & Hal). pose proof Hal as (Hnd & Hlt & Hch & Hf & Hl & Hs).
+  unfold c_swap, sll_swap. rewrite !(c_within_eq _ l) by exact Hs.
+  destruct (within i l && within j l && negb (i =? j)) eqn:E; [|exists d; auto].
+  apply andb_true_iff in E. destruct E as [E Eij]. apply andb_true_iff in E. destruct E as [Wi Wj].
+  apply within_spec in Wi. apply within_spec in Wj. apply negb_true_iff, Z.eqb_neq in Eij.
+  pose proof (chain_length _ _ _ _ _ _ _ _ Hch) as Hlen.
+  assert (Hzl : zlen al = zlen l) by (unfold zlen; lia).
+  rewrite <- Hzl in Wi, Wj.
+  destruct (nth_error_in_range _ _ _ Wi) as (x & Hx). destruct (nth_error_in_range _ _ _ Wj) as (y & Hy).
+  rewrite Hf, Hs.
+  assert (Ei0 : i <? zlen (@nil nat) = false) by (apply Z.ltb_ge; change (zlen (@nil nat)) with 0; lia).
+  assert (Ej0 : j <? zlen (@nil nat) = false) by (apply Z.ltb_ge; change (zlen (@nil nat)) with 0; lia).
+  change 0 with (zlen (@nil nat)) at 1.
+  rewrite (swap_loop_ok dbl (lheap d) i j al [] None l _ None None Hch Wi Wj Eij);
+    [|rewrite Ei0; reflexivity|rewrite Ej0; reflexivity|rewrite to_nat_zlen; lia].
+  simpl app. rewrite Hx, Hy. simpl deref.
+  destruct (repr_al_set_val _ _ _ _ _ _ 0 Hal Hx) as (_ & c1 & Hc1 & Hv1 & _).
+  destruct (repr_al_set_val _ _ _ _ _ _ 0 Hal Hy) as (_ & c2 & Hc2 & Hv2 & _).
+  rewrite Hc1, Hc2.
+  destruct (repr_al_set_val _ _ _ _ _ _ (cval c2) Hal Hx) as (h1 & _ & _ & _ & -> & Hal1).
+  destruct (repr_al_set_val _ _ _ _ _ _ (cval c1) Hal1 Hy) as (h2 & _ & _ & _ & Hst2 & Hal2).
+  lsimpl_in Hst2. rewrite Hst2.
+  eexists. split; [reflexivity|].
+  rewrite (nth_error_nth _ _ 0 Hv1), (nth_error_nth _ _ 0 Hv2).
+  exact (repr_al_intro _ _ _ _ Hal2).
+Qed.
+
+(* ================= Insert: linking fresh cells behind `before` ================= *)
+Definition sll_link (d : llist) (v : Z) (before : option nat) : option (llist * option nat) :=
+  let '(d1, ne) := alloc d {| cval := v; cnext := None; cprev := None |} in
+  match store (lheap d1) before (with_next ne) with
+  | Some h => Some (set_heap d1 h, ne)
+  | None => None
+  end.
+Definition dll_link (d : llist) (v : Z) (before : option nat) : option (llist * option nat) :=
+  let '(d1, ne) := alloc d {| cval := v; cnext := None; cprev := None |} in
+  match store (lheap d1) ne (with_prev before) with
+  | Some h1 => match store h1 before (with_next ne) with
+               | Some h2 => Some (set_heap d1 h2, ne)
+               | None => None
+               end
+  | None => None
+  end.
+Fixpoint link_loop (lk : llist -> Z -> option nat -> option (llist * option nat))
+    (vs : list Z) (d : llist) (before : option nat) : option (llist * option nat) :=
+  match vs with
+  | [] => Some (d, before)
+  | v :: vs' => match lk d v before with
+                | Some (d2, ne) => link_loop lk vs' d2 ne
+                | None => None
+                end
+  end.
+
+Lemma csll_ins_mid_loop_eq : forall vs d b, csll_ins_mid_loop vs d b = link_loop sll_link vs d b.
+Proof.
+  induction vs as [|v vs IH]; intros d b; [reflexivity|].
+  cbn [csll_ins_mid_loop link_loop]. unfold sll_link. cbn [alloc].
+  destruct (store _ b _) as [h|]; [apply IH|reflexivity].
+Qed.
+Lemma csll_ins_head_loop_S : forall vs i d b, csll_ins_head_loop vs (S i) d b = link_loop sll_link vs d b.
+Proof.
+  induction vs as [|v vs IH]; intros i d b; [reflexivity|].
+  cbn [csll_ins_head_loop link_loop]. unfold sll_link. cbn [alloc].
+  destruct (store _ b _) as [h|]; [apply IH|reflexivity].
+Qed.
+Lemma cdll_ins_mid_loop_eq : forall vs d b, cdll_ins_mid_loop vs d b = link_loop dll_link vs d b.
+Proof.
+  induction vs as [|v vs IH]; intros d b; [reflexivity|].
+  cbn [cdll_ins_mid_loop link_loop]. unfold dll_link. cbn [alloc].
+  destruct (store _ (Some (lnext_addr d)) _) as [h1|]; [|reflexivity].
+  destruct (store h1 b _) as [h2|]; [apply IH|reflexivity].
+Qed.
+Lemma cdll_ins_head_loop_S : forall vs i d b, cdll_ins_head_loop vs (S i) d b = link_loop dll_link vs d b.
+Proof.
+  induction vs as [|v vs IH]; intros i d b; [reflexivity|].
+  cbn [cdll_ins_head_loop link_loop]. unfold dll_link. cbn [alloc].
+  destruct (store _ (Some (lnext_addr d)) _) as [h1|]; [|reflexivity].
+  destruct (store h1 b _) as [h2|]; [apply IH|reflexivity].
+Qed.
+
+Definition link_spec (dbl : bool) (lk : llist -> Z -> option nat -> option (llist * option nat)) : Prop :=
+  forall d p a0 b l nxt v,
+  fchain dbl (lheap d) p (a0 ++ [b]) l nxt -> NoDup (a0 ++ [b]) ->
+  Forall (fun a => (a < lnext_addr d)%nat) (a0 ++ [b]) ->
+  exists d', lk d v (Some b) = Some (d', Some (lnext_addr d)) /\
+    lfirst d' = lfirst d /\ llast d' = llast d /\ lsize d' = lsize d /\ lnext_addr d' = S (lnext_addr d) /\
+    fchain dbl (lheap d') p ((a0 ++ [b]) ++ [lnext_addr d]) (l ++ [v]) None /\
+    (forall a, a <> b -> (a < lnext_addr d)%nat -> hread (lheap d') a = hread (lheap d) a).
+
+Lemma sll_link_ok : link_spec false sll_link.
+Proof.
+  intros d p a0 b l nxt v Hch Hnd Hlt.
+  pose proof (Forall_lt_notin _ _ Hlt) as Hfresh.
+  assert (Hbn : b <> lnext_addr d).
+  { intro He. apply Hfresh. rewrite <- He. apply in_or_app. right. left. reflexivity. }
+  destruct (chain_last_cell _ _ _ _ _ _ _ Hch) as (cb & Hcb & _).
+  unfold sll_link. cbn [alloc]. lsimpl.
+  rewrite (store_some _ _ cb); [|rewrite hread_other by exact Hbn; exact Hcb].
+  eexists. split; [reflexivity|]. lsimpl. repeat (split; [reflexivity|]). split.
+  - eapply chain_snoc; try eassumption.
+    + intros a Ha. apply hread_other. exact Ha.
+    + apply hread_same.
+    + reflexivity.
+    + reflexivity.
+    + discriminate.
+  - intros a Hab Han. rewrite !hread_other by lia. reflexivity.
+Qed.
+
+Lemma dll_link_ok : link_spec true dll_link.
+Proof.
+  intros d p a0 b l nxt v Hch Hnd Hlt.
+  pose proof (Forall_lt_notin _ _ Hlt) as Hfresh.
+  assert (Hbn : b <> lnext_addr d).
+  { intro He. apply Hfresh. rewrite <- He. apply in_or_app. right. left. reflexivity. }
+  destruct (chain_last_cell _ _ _ _ _ _ _ Hch) as (cb & Hcb & _).
+  unfold dll_link. cbn [alloc]. lsimpl.
+  rewrite (store_some _ _ _ _ (hread_same _ _ _)).
+  rewrite (store_some _ _ cb); [|rewrite !hread_other by exact Hbn; exact Hcb].
+  eexists. split; [reflexivity|]. lsimpl. repeat (split; [reflexivity|]). split.
+  - eapply chain_snoc; try eassumption.
+    + intros a Ha. rewrite !hread_other by exact Ha. reflexivity.
+    + apply hread_same.
+    + reflexivity.
+    + reflexivity.
+    + reflexivity.
+  - intros a Hab Han. rewrite !hread_other by lia. reflexivity.
+Qed.
+
+Lemma link_loop_ok : forall dbl lk, link_spec dbl lk -> forall vs d p a0 b l nxt,
+  fchain dbl (lheap d) p (a0 ++ [b]) l nxt -> NoDup (a0 ++ [b]) ->
+  Forall (fun a => (a < lnext_addr d)%nat) (a0 ++ [b]) ->
+  exists d' nxt',
+    link_loop lk vs d (Some b) = Some (d', last_or (seq (lnext_addr d) (length vs)) (Some b)) /\
+    lfirst d' = lfirst d /\ llast d' = llast d /\ lsize d' = lsize d /\
+    lnext_addr d' = (lnext_addr d + length vs)%nat /\
+    fchain dbl (lheap d') p ((a0 ++ [b]) ++ seq (lnext_addr d) (length vs)) (l ++ vs) nxt' /\
+    (forall a, a <> b -> (a < lnext_addr d)%nat -> hread (lheap d') a = hread (lheap d) a).
+Proof.
+  intros dbl lk Hlk. induction vs as [|v vs IH]; intros d p a0 b l nxt Hch Hnd Hlt.
+  - exists d, nxt. simpl. rewrite !app_nil_r. repeat split; auto.
+  - destruct (Hlk d p a0 b l nxt v Hch Hnd Hlt) as (d1 & E1 & Hf1 & Hl1 & Hs1 & Hn1 & Hch1 & Hfr1).
+    pose proof (Forall_lt_notin _ _ Hlt) as Hfresh.
+    destruct (IH d1 p (a0 ++ [b]) (lnext_addr d) (l ++ [v]) None Hch1) as
+      (d' & nxt' & E & Hf' & Hl' & Hs' & Hn' & Hch' & Hfr').
+    + apply NoDup_app_intro; [exact Hnd|constructor; [intros []|constructor]|].
+      intros y Hy [He|[]]. subst. contradiction.
+    + rewrite Hn1. apply Forall_app. split; [apply Forall_lt_S; exact Hlt|constructor; [lia|constructor]].
+    + exists d', nxt'. cbn [link_loop]. rewrite E1, E, Hn1. cbn [length seq last_or].
+      split; [reflexivity|]. rewrite Hf', Hl', Hs', Hn', Hn1. repeat (split; [congruence || lia|]). split.
+      * rewrite Hn1, <- !app_assoc in Hch'. rewrite <- !app_assoc. exact Hch'.
+      * intros a Hab Han. rewrite Hfr' by lia. apply Hfr1; assumption.
+Qed.
+
+Lemma NoDup_app_disj : forall (a b : list nat), NoDup (a ++ b) ->
+  NoDup a /\ NoDup b /\ (forall y, In y a -> ~ In y b).
+Proof.
+  induction a as [|x a IH]; intros b H; simpl in H.
+  - repeat split; [constructor|exact H|intros y []].
+  - inversion H as [|x' l' Hnin Hnd]; subst. destruct (IH _ Hnd) as (H1 & H2 & H3).
+    repeat split.
+    + constructor; [|exact H1]. intro Hin. apply Hnin. apply in_or_app. left. exact Hin.
+    + exact H2.
+    + intros y [->|Hy] Hyb; [apply Hnin; apply in_or_app; right; exact Hyb|exact (H3 y Hy Hyb)].
+Qed.
+
+Lemma NoDup_insert_seq : forall (a1 a2 : list nat) n k, NoDup (a1 ++ a2) ->
+  Forall (fun a => (a < n)%nat) (a1 ++ a2) -> NoDup ((a1 ++ seq n k) ++ a2).
+Proof.
+  intros a1 a2 n k Hnd Hlt. apply (Permutation_NoDup (l := seq n k ++ (a1 ++ a2))).
+  - rewrite app_assoc. apply Permutation_app_tail. apply Permutation_app_comm.
+  - apply NoDup_app_intro; [apply seq_NoDup|exact Hnd|].
+    intros y Hy Hin. apply in_seq in Hy. rewrite Forall_forall in Hlt. specialize (Hlt _ Hin). lia.
+Qed.
+
+Lemma Forall_insert_seq : forall (a1 a2 : list nat) n k, Forall (fun a => (a < n)%nat) (a1 ++ a2) ->
+  Forall (fun a => (a < n + k)%nat) ((a1 ++ seq n k) ++ a2).
+Proof.
+  intros a1 a2 n k H. apply Forall_app in H. destruct H as [H1 H2].
+  assert (Hw : forall al, Forall (fun a => (a < n)%nat) al -> Forall (fun a => (a < n + k)%nat) al).
+  { intros al Hal. eapply Forall_impl; [|exact Hal]. simpl. intros a Ha. lia. }
+  apply Forall_app. split; [apply Forall_app; split|]; auto.
+  apply Forall_forall. intros y Hy. apply in_seq in Hy. lia.
+Qed.
+
+(* the last fresh cell is linked to the old successor *)
+Lemma sll_finish : forall h p A LA nA x a2 l2 q m, last_or A None = Some m ->
+  fchain false h p A LA nA -> fchain false h q (x :: a2) l2 None -> NoDup (A ++ x :: a2) ->
+  exists h2, store h (Some m) (with_next (Some x)) = Some h2 /\
+    fchain false h2 p (A ++ x :: a2) (LA ++ l2) None.
+Proof.
+  intros h p A LA nA x a2 l2 q m Hm HA H2 Hnd.
+  destruct (list_snoc_cases _ A) as [->|(A0 & m' & ->)]; [discriminate Hm|].
+  rewrite last_or_snoc in Hm. inversion Hm; subst m'.
+  destruct (chain_last_cell _ _ _ _ _ _ _ HA) as (cm & Hcm & _).
+  rewrite (store_some _ _ cm _ Hcm). eexists. split; [reflexivity|].
+  destruct (NoDup_app_disj _ _ Hnd) as (HndA & _ & Hdisj).
+  assert (Hm2 : ~ In m (x :: a2)). { apply Hdisj. apply in_or_app. right. left. reflexivity. }
+  apply chain_app; [exact (chain_length _ _ _ _ _ _ _ _ HA)|]. split.
+  - apply (chain_relink_next _ _ _ _ _ _ nA); assumption.
+  - apply (chain_false_prev _ q). apply chain_frame_write; assumption.
+Qed.
+
+Lemma dll_finish : forall h p A LA nA x a2 l2 q m, last_or A None = Some m ->
+  fchain true h p A LA nA -> fchain true h q (x :: a2) l2 None -> NoDup (A ++ x :: a2) ->
+  exists h1 h2, store h (Some x) (with_prev (Some m)) = Some h1 /\
+    store h1 (Some m) (with_next (Some x)) = Some h2 /\
+    fchain true h2 p (A ++ x :: a2) (LA ++ l2) None.
+Proof.
+  intros h p A LA nA x a2 l2 q m Hm HA H2 Hnd.
+  destruct (list_snoc_cases _ A) as [->|(A0 & m' & ->)]; [discriminate Hm|].
+  rewrite last_or_snoc in Hm. inversion Hm; subst m'.
+  destruct (chain_last_cell _ _ _ _ _ _ _ HA) as (cm & Hcm & _).
+  destruct (NoDup_app_disj _ _ Hnd) as (HndA & Hnd2 & Hdisj).
+  assert (Hm2 : ~ In m (x :: a2)). { apply Hdisj. apply in_or_app. right. left. reflexivity. }
+  assert (HxA : ~ In x (A0 ++ [m])). { intros Hin. apply (Hdisj x Hin). left. reflexivity. }
+  assert (Hxm : m <> x). { intro He. apply Hm2. left. symmetry. exact He. }
+  assert (Hx : exists cx, hread h x = Some cx).
+  { destruct l2 as [|w l2]; simpl in H2; [contradiction|]. destruct H2 as [(cx & Hcx & _) _]. exists cx. exact Hcx. }
+  destruct Hx as (cx & Hcx).
+  exists (hwrite h x (with_prev (Some m) cx)).
+  exists (hwrite (hwrite h x (with_prev (Some m) cx)) m (with_next (Some x) cm)).
+  split; [apply store_some; exact Hcx|].
+  split; [apply store_some; rewrite hread_other by exact Hxm; exact Hcm|].
+  apply chain_app; [exact (chain_length _ _ _ _ _ _ _ _ HA)|]. split.
+  - apply (chain_relink_next _ _ _ _ _ _ nA); [|exact HndA|rewrite hread_other by exact Hxm; exact Hcm].
+    apply chain_frame_write; assumption.
+  - rewrite last_or_snoc. apply chain_frame_write; [exact Hm2|].
+    apply (chain_relink_prev _ _ q); assumption.
+Qed.
+
+Theorem csll_insert_ok : forall d l i vs, repr_sll d l ->
+  exists d', csll_insert d i vs = Some d' /\ repr_sll d' (sll_insert i vs l).
+Proof.
+  intros d l i vs H. pose proof H as (al & Hnd & Hlt & Hch & Hf & Hl & Hs).
+  unfold csll_insert, sll_insert. rewrite (c_within_eq _ l) by exact Hs.
+  destruct (within i l) eqn:W; simpl negb; cbv iota.
+  2: { rewrite Hs. destruct (i =? zlen l); [apply csll_add_ok; exact H|exists d; auto]. }
+  destruct vs as [|v0 vs']; [exists d; auto|].
+  destruct (chain_split_within _ _ _ _ _ _ _ Hch W) as (a1 & x & a2 & l1 & v & l2 & -> & -> & Ha1 & Hl1).
+  lsimpl. rewrite Hf, <- Ha1, (chain_walk_track _ _ _ _ _ _ _ None Hch).
+  rewrite firstn_exact, skipn_exact by lia.
+  destruct (list_snoc_cases _ a1) as [->|(a0 & b & ->)].
+  - 
+    (* the head case: foundElement == list.first *)
+    destruct l1 as [|w l1]; [|simpl in Ha1, Hl1; lia].
+    assert (Ei : i =? 0 = true). { apply within_spec in W. apply Z.eqb_eq. simpl in Ha1. lia. }
+    rewrite Ei. simpl app. simpl app in Hch, Hnd, Hlt, Hf, Hl, Hs. simpl hd_or. rewrite ptr_eqb_refl.
+    cbn [csll_ins_head_loop alloc]. lsimpl. rewrite csll_ins_head_loop_S.
+    set (n0 := lnext_addr d).
+    set (d2 := set_first _ _).
+    pose proof (Forall_lt_notin _ _ Hlt) as Hfresh. fold n0 in Hfresh.
+    destruct (link_loop_ok false sll_link sll_link_ok vs' d2 None [] n0 [v0] None) as
+      (d' & nxt' & E & Hf' & Hl' & Hs' & Hn' & Hch' & Hfr').
+    { subst d2. lsimpl. simpl. split; [|exact I]. eexists. rewrite hread_same. repeat split; auto. }
+    { constructor; [intros []|constructor]. }
+    { subst d2. lsimpl. constructor; [lia|constructor]. }
+    subst d2. lsimpl_in E. lsimpl_in Hf'. lsimpl_in Hl'. lsimpl_in Hs'. lsimpl_in Hn'. lsimpl_in Hch'. lsimpl_in Hfr'.
+    rewrite E.
+    assert (Hc2 : fchain false (lheap d') None (x :: a2) (v :: l2) None).
+    { apply (chain_frame _ _ _ (lheap d)); [|exact Hch]. intros a Ha.
+      assert (Han : (a < n0)%nat). { rewrite Forall_forall in Hlt. exact (Hlt _ Ha). }
+      rewrite Hfr' by lia. apply hread_other. lia. }
+    destruct (last_or_In ([] ++ [n0] ++ seq (S n0) (length vs')) None) as (m & Hm & _); [discriminate|].
+    simpl app in Hm. simpl last_or in Hm. simpl app in Hch'.
+    destruct (sll_finish _ _ (n0 :: seq (S n0) (length vs')) _ _ x a2 _ None m Hm Hch' Hc2) as (h2 & Hst & Hfin).
+    { apply (NoDup_insert_seq [] (x :: a2) n0 (S (length vs'))); [exact Hnd|exact Hlt]. }
+    rewrite Hm, Hst. eexists. split; [reflexivity|].
+    exists ((n0 :: seq (S n0) (length vs')) ++ x :: a2). lsimpl. rsplit.
+    + apply (NoDup_insert_seq [] (x :: a2) n0 (S (length vs'))); [exact Hnd|exact Hlt].
+    + rewrite Hn'. replace (S n0 + length vs')%nat with (n0 + S (length vs'))%nat by lia.
+      apply (Forall_insert_seq [] (x :: a2) n0 (S (length vs'))). exact Hlt.
+    + exact Hfin.
+    + exact Hf'.
+    + rewrite Hl', Hl, last_or_app. reflexivity.
+    + rewrite Hs', Hs. change (v0 :: vs' ++ v :: l2) with ((v0 :: vs') ++ v :: l2).
+      rewrite (zlen_app' _ (v0 :: vs')). lia.
+  - 
+    (* the middle case *)
+    assert (Ei : i =? 0 = false). { apply Z.eqb_neq. rewrite app_length in Ha1. simpl in Ha1. lia. }
+    rewrite Ei. destruct (NoDup_mid _ _ _ Hnd) as (Hx1 & Hx2 & Hnd1 & Hnd2 & Hdisj).
+    simpl hd_or at 1. rewrite hd_or_app, ptr_eqb_hd_false; [|apply snoc_not_nil|exact Hx1].
+    rewrite last_or_snoc. simpl deref.
+    pose proof Hch as Hch0. apply chain_app in Hch0; [|lia]. destruct Hch0 as [Hc1 Hc2].
+    simpl hd_or in Hc1. rewrite last_or_snoc in Hc2.
+    destruct (chain_last_cell _ _ _ _ _ _ _ Hc1) as (cb & Hcb & Hnb). rewrite Hcb, Hnb.
+    rewrite csll_ins_mid_loop_eq.
+    set (n0 := lnext_addr d).
+    set (d2 := set_size _ _).
+    destruct (link_loop_ok false sll_link sll_link_ok (v0 :: vs') d2 None a0 b l1 (Some x)) as
+      (d' & nxt' & E & Hf' & Hl' & Hs' & Hn' & Hch' & Hfr').
+    { exact Hc1. }
+    { exact Hnd1. }
+    { subst d2. lsimpl. apply Forall_app in Hlt. tauto. }
+    subst d2. lsimpl_in E. lsimpl_in Hf'. lsimpl_in Hl'. lsimpl_in Hs'. lsimpl_in Hn'. lsimpl_in Hch'. lsimpl_in Hfr'.
+    fold n0 in E, Hn', Hch', Hfr', Hlt. rewrite E.
+    assert (Hc2' : fchain false (lheap d') (Some b) (x :: a2) (v :: l2) None).
+    { apply (chain_frame _ _ _ (lheap d)); [|exact Hc2]. intros a Ha.
+      assert (Han : (a < n0)%nat).
+      { rewrite Forall_forall in Hlt. apply Hlt. apply in_or_app. right. exact Ha. }
+      apply Hfr'; [|exact Han]. intro He. subst a.
+      apply (Hdisj b); [apply in_or_app; right; left; reflexivity|].
+      destruct Ha as [Ha|Ha]; [|exact Ha]. exfalso. apply Hx1. subst x. apply in_or_app. right. left. reflexivity. }
+    destruct (last_or_In ((a0 ++ [b]) ++ seq n0 (length (v0 :: vs'))) None) as (m & Hm & _).
+    { simpl. intro He. apply app_eq_nil in He. destruct He as [_ He]. discriminate He. }
+    assert (Hm' : last_or (seq n0 (length (v0 :: vs'))) (Some b) = Some m).
+    { rewrite last_or_app, last_or_snoc in Hm. exact Hm. }
+    destruct (sll_finish _ _ _ _ _ x a2 _ (Some b) m Hm Hch' Hc2') as (h2 & Hst & Hfin).
+    { apply NoDup_insert_seq; [exact Hnd|exact Hlt]. }
+    rewrite Hm', Hst. eexists. split; [reflexivity|].
+    exists (((a0 ++ [b]) ++ seq n0 (length (v0 :: vs'))) ++ x :: a2). lsimpl. rsplit.
+    + apply NoDup_insert_seq; [exact Hnd|exact Hlt].
+    + rewrite Hn'. apply Forall_insert_seq. exact Hlt.
+    + rewrite <- (app_assoc l1) in Hfin. exact Hfin.
+    + rewrite Hf', Hf, !hd_or_app. destruct a0; reflexivity.
+    + rewrite Hl', Hl, !last_or_app. reflexivity.
+    + rewrite Hs', Hs, !zlen_app'. lia.
+Qed.
+
+(* ================= doubly linked list ================= *)
+Lemma chain_rev_split : forall h a1 x a2 l p n, fchain true h p (a1 ++ x :: a2) l n ->
+  chain true cprev cnext h n (rev a2 ++ x :: rev a1) (rev l) p.
+Proof.
+  intros h a1 x a2 l p n H. apply chain_rev in H.
+  rewrite rev_app_distr in H. simpl rev in H. rewrite <- app_assoc in H. exact H.
+Qed.
+
+Lemma hd_or_rev_split : forall a1 (x : nat) a2 d, last_or (a1 ++ x :: a2) d = hd_or (rev a2 ++ x :: rev a1) d.
+Proof.
+  intros a1 x a2 d. rewrite <- hd_or_rev, rev_app_distr. simpl rev. rewrite <- app_assoc. reflexivity.
+Qed.
+
+(* the element at a valid index, from the nearer end *)
+Lemma cdll_locate_ok : forall d a1 x a2 l i,
+  fchain true (lheap d) None (a1 ++ x :: a2) l None ->
+  lfirst d = hd_or (a1 ++ x :: a2) None -> llast d = last_or (a1 ++ x :: a2) None ->
+  lsize d = zlen l -> length a1 = Z.to_nat i -> 0 <= i ->
+  cdll_locate d i = Some (Some x).
+Proof.
+  intros d a1 x a2 l i Hch Hf Hl Hs Ha1 Hi. unfold cdll_locate.
+  destruct (lsize d - i <? i).
+  - pose proof (chain_length _ _ _ _ _ _ _ _ Hch) as Hlen. rewrite app_length in Hlen. simpl in Hlen.
+    replace (Z.to_nat (lsize d - 1 - i)) with (length (rev a2)).
+    2: { rewrite rev_length, Hs. unfold zlen. lia. }
+    rewrite Hl, hd_or_rev_split.
+    exact (chain_walk true cprev cnext _ _ _ _ _ _ (chain_rev_split _ _ _ _ _ _ _ Hch)).
+  - rewrite Hf, <- Ha1. exact (chain_walk _ _ _ _ _ _ _ _ _ Hch).
+Qed.
+
+Theorem cdll_get_ok : forall d l i, repr_dll d l -> cdll_get d i = Some (dll_get i l).
+Proof.
+  intros d l i (al & Hnd & Hlt & Hch & Hf & Hl & Hs).
+  unfold cdll_get, dll_get. rewrite (c_within_eq _ l) by exact Hs.
+  destruct (within i l) eqn:W; simpl negb; cbv iota; [|reflexivity].
+  destruct (chain_split_within _ _ _ _ _ _ _ Hch W) as (a1 & x & a2 & l1 & v & l2 & -> & -> & Ha1 & Hl1).
+  apply within_spec in W.
+  rewrite (cdll_locate_ok _ _ _ _ _ _ Hch Hf Hl Hs Ha1) by lia.
+  destruct (chain_mid_cell _ _ _ _ _ _ _ _ _ _ Hch) as (c & Hc & Hv & _); [lia|].
+  simpl. rewrite Hc, Hv.
+  destruct (zlen (l1 ++ v :: l2) - i <? i).
+  - rewrite rev_app_distr. simpl rev. rewrite <- app_assoc. simpl app.
+    rewrite nth_error_exact; [reflexivity|].
+    rewrite rev_length. unfold zlen. rewrite app_length. simpl length. lia.
+  - rewrite nth_error_exact by lia. reflexivity.
+Qed.
+
+Theorem cdll_set_ok : forall d l i v, repr_dll d l ->
+  exists d', cdll_set d i v = Some d' /\ repr_dll d' (dll_set i v l).
+Proof.
+  intros d l i v H. pose proof H as (al & Hnd & Hlt & Hch & Hf & Hl & Hs).
+  unfold cdll_set, dll_set, sll_set. rewrite (c_within_eq _ l) by exact Hs.
+  destruct (within i l) eqn:W; simpl negb; cbv iota.
+  - destruct (chain_split_within _ _ _ _ _ _ _ Hch W) as (a1 & x & a2 & l1 & v0 & l2 & -> & -> & Ha1 & Hl1).
+    apply within_spec in W.
+    rewrite (cdll_locate_ok _ _ _ _ _ _ Hch Hf Hl Hs Ha1) by lia.
+    destruct (repr_set_val _ _ _ _ _ _ _ _ v Hnd Hlt Hch Hf Hl Hs) as (h & -> & Hr); [lia|].
+    eexists. split; [reflexivity|]. rewrite upd_exact by lia. exact Hr.
+  - rewrite Hs. destruct (i =? zlen l).
+    + apply cdll_add_ok. exact H.
+    + exists d. split; [reflexivity|exact H].
+Qed.
+
+(* ---------- Remove (doubly linked) ---------- *)
+Lemma ptr_eqb_first : forall a1 (x : nat) a2, NoDup (a1 ++ x :: a2) ->
+  ptr_eqb (Some x) (hd_or (a1 ++ x :: a2) None) = match a1 with [] => true | _ => false end.
+Proof.
+  intros a1 x a2 Hnd. destruct a1 as [|a a1]; [simpl; apply Nat.eqb_refl|].
+  destruct (NoDup_mid _ _ _ Hnd) as (Hx1 & _).
+  simpl. apply Nat.eqb_neq. intro He. apply Hx1. left. symmetry. exact He.
+Qed.
+Lemma ptr_eqb_last : forall a1 (x : nat) a2, NoDup (a1 ++ x :: a2) ->
+  ptr_eqb (Some x) (last_or (a1 ++ x :: a2) None) = match a2 with [] => true | _ => false end.
+Proof.
+  intros a1 x a2 Hnd. rewrite last_or_app. simpl last_or.
+  destruct a2 as [|y a2]; [simpl; apply Nat.eqb_refl|].
+  destruct (NoDup_mid _ _ _ Hnd) as (_ & Hx2 & _).
+  apply ptr_eqb_last_false; [discriminate|exact Hx2].
+Qed.
+
+Lemma store_opt_ok : forall d p f h',
+  (if is_nil p then Some (lheap d) else store (lheap d) p f) = Some h' ->
+  exists d', (if is_nil p then Some d
+              else match store (lheap d) p f with Some h => Some (set_heap d h) | None => None end) = Some d' /\
+    lheap d' = h' /\ lfirst d' = lfirst d /\ llast d' = llast d /\ lsize d' = lsize d /\
+    lnext_addr d' = lnext_addr d.
+Proof.
+  intros d p f h' H. destruct (is_nil p).
+  - inversion H; subst. exists d. repeat split; reflexivity.
+  - destruct (store (lheap d) p f) as [h|]; inversion H; subst.
+    eexists. split; [reflexivity|]. lsimpl. repeat split; reflexivity.
+Qed.
+
+Theorem cdll_remove_ok : forall d l i, repr_dll d l ->
+  exists d', cdll_remove d i = Some d' /\ repr_dll d' (dll_remove i l).
+Proof.
+  intros d l i H. pose proof H as (al & Hnd & Hlt & Hch & Hf & Hl & Hs).
+  unfold cdll_remove, dll_remove, sll_remove. rewrite (c_within_eq _ l) by exact Hs.
+  destruct (within i l) eqn:W; simpl negb; cbv iota.
+  2: { exists d. split; [reflexivity|exact H]. }
+  rewrite Hs. destruct (zlen l =? 1) eqn:E1.
+  { eexists. split; [reflexivity|]. apply repr_clear. }
+  destruct (chain_split_within _ _ _ _ _ _ _ Hch W) as (a1 & x & a2 & l1 & v & l2 & -> & -> & Ha1 & Hl1).
+  rewrite firstn_exact, skipn_S_exact by lia.
+  apply within_spec in W.
+  rewrite (cdll_locate_ok _ _ _ _ _ _ Hch Hf Hl Hs Ha1) by lia.
+  destruct (NoDup_mid _ _ _ Hnd) as (Hx1 & Hx2 & Hnd1 & Hnd2 & Hdisj).
+  pose proof Hch as Hch'. apply chain_app in Hch'; [|lia]. destruct Hch' as [Hc1 Hc2].
+  simpl in Hc2. destruct Hc2 as [(cx & Hcx & Hvx & Hnx & Hpx) Hc2]. specialize (Hpx eq_refl).
+  rewrite Hf, ptr_eqb_first by exact Hnd.
+  assert (Hd1 : exists d1, (if match a1 with [] => true | _ :: _ => false end
+            then match deref (lheap d) (Some x) with Some c => Some (set_first d (cnext c)) | None => None end
+            else Some d) = Some d1 /\ lheap d1 = lheap d /\ lfirst d1 = hd_or (a1 ++ a2) None /\
+            llast d1 = llast d /\ lsize d1 = lsize d /\ lnext_addr d1 = lnext_addr d).
+  { destruct a1 as [|a a1'].
+    - simpl deref. rewrite Hcx. eexists. split; [reflexivity|]. lsimpl. rewrite Hnx. repeat split; reflexivity.
+    - exists d. rewrite Hf. repeat split; reflexivity. }
+  destruct Hd1 as (d1 & -> & Hh1 & Hf1 & Hl1' & Hs1 & Hn1).
+  rewrite Hl1', Hl, ptr_eqb_last by exact Hnd.
+  assert (Hd2 : exists d2, (if match a2 with [] => true | _ :: _ => false end
+            then match deref (lheap d1) (Some x) with Some c => Some (set_last d1 (cprev c)) | None => None end
+            else Some d1) = Some d2 /\ lheap d2 = lheap d /\ lfirst d2 = hd_or (a1 ++ a2) None /\
+            llast d2 = last_or (a1 ++ a2) None /\ lsize d2 = lsize d /\ lnext_addr d2 = lnext_addr d).
+  { destruct a2 as [|y a2'].
+    - rewrite Hh1. simpl deref. rewrite Hcx. eexists. split; [reflexivity|]. lsimpl.
+      rewrite Hpx, app_nil_r. rewrite app_nil_r in Hf1. repeat split; auto.
+    - exists d1. rewrite Hl1', Hl, !last_or_app. repeat split; auto. }
+  destruct Hd2 as (d2 & -> & Hh2 & Hf2 & Hl2 & Hs2 & Hn2).
+  rewrite Hh2. simpl deref. rewrite Hcx, Hpx, Hnx.
+  destruct (relink_next_opt _ _ _ _ _ _ (hd_or a2 None) Hc1 Hnd1) as (h' & Hh' & Hc1' & Hfr).
+  rewrite <- Hh2 in Hh'.
+  destruct (store_opt_ok _ _ _ _ Hh') as (d3 & E3 & Hh3 & Hf3 & Hl3 & Hs3 & Hn3).
+  rewrite Hh2 in E3. rewrite E3. rewrite Hh3.
+  assert (Hx' : hread h' x = Some cx). { rewrite Hfr by exact Hx1. exact Hcx. }
+  rewrite Hx', Hpx, Hnx.
+  assert (Hc2' : fchain true h' (Some x) a2 l2 None).
+  { apply (chain_frame _ _ _ (lheap d)); [|exact Hc2].
+    intros a Ha. apply Hfr. intro Ha1'. exact (Hdisj a Ha1' Ha). }
+  destruct (relink_prev_opt _ _ _ _ _ _ (last_or a1 None) Hc2' Hnd2) as (h'' & Hh'' & Hc2'' & Hfr2).
+  rewrite <- Hh3 in Hh''.
+  destruct (store_opt_ok _ _ _ _ Hh'') as (d4 & E4 & Hh4 & Hf4 & Hl4 & Hs4 & Hn4).
+  rewrite Hh3 in E4. rewrite E4.
+  eexists. split; [reflexivity|].
+  exists (a1 ++ a2). lsimpl. rsplit.
+  - exact (NoDup_mid_remove _ _ _ Hnd).
+  - rewrite Hn4, Hn3, Hn2. exact (Forall_mid_remove _ _ _ _ Hlt).
+  - rewrite Hh4. apply chain_app; [lia|]. split; [|exact Hc2''].
+    apply (chain_frame _ _ _ h'); [|exact Hc1'].
+    intros a Ha. apply Hfr2. intro Ha2. exact (Hdisj a Ha Ha2).
+  - rewrite Hf4, Hf3. exact Hf2.
+  - rewrite Hl4, Hl3. exact Hl2.
+  - rewrite Hs4, Hs3, Hs2, Hs. apply zlen_mid_minus.
+Qed.
+
+(* ---------- Insert (doubly linked) ---------- *)
+(* the walk from the tail that keeps `before` one cell behind `found` *)
+Lemma chain_walk_back2 : forall dbl pv h b1 b2 q lr p, b2 <> [] ->
+  chain dbl cprev pv h q (b1 ++ b2) lr p ->
+  walk_back2 h (hd_or (tl (b1 ++ b2)) p) (hd_or (b1 ++ b2) p) (length b1) = Some (hd_or (tl b2) p, hd_or b2 p).
+Proof.
+  intros dbl pv h. induction b1 as [|r b1 IH]; intros b2 q lr p Hne H; [reflexivity|].
+  destruct lr as [|w lr]; simpl in H; [contradiction|].
+  destruct H as [(cr & Hcr & _ & Hnr & _) H].
+  assert (Hz : exists z rest, b1 ++ b2 = z :: rest).
+  { destruct b1 as [|z b1']; [destruct b2 as [|z b2']; [congruence|]|]; eexists; eexists; reflexivity. }
+  destruct Hz as (z & rest & Hz).
+  simpl app. simpl tl. simpl hd_or at 2. cbn [length walk_back2].
+  rewrite Hz in H, Hnr |- *. destruct lr as [|w' lr]; simpl in H; [contradiction|].
+  pose proof H as [(cz & Hcz & _ & Hnz & _) _].
+  simpl hd_or. simpl deref. rewrite Hcz, Hcr, Hnz, Hnr.
+  specialize (IH b2 (Some r) (w' :: lr) p Hne). rewrite Hz in IH. simpl hd_or in IH. simpl tl in IH.
+  apply IH. simpl. exact H.
+Qed.
+
+Lemma cdll_insert_locate : forall d a1 x a2 l i,
+  fchain true (lheap d) None (a1 ++ x :: a2) l None ->
+  lfirst d = hd_or (a1 ++ x :: a2) None -> llast d = last_or (a1 ++ x :: a2) None ->
+  lsize d = zlen l -> length a1 = Z.to_nat i -> 0 <= i ->
+  (if lsize d - i <? i then
+     match deref (lheap d) (llast d) with
+     | Some cl => walk_back2 (lheap d) (cprev cl) (llast d) (Z.to_nat (lsize d - 1 - i))
+     | None => None
+     end
+   else walk_track (lheap d) None (lfirst d) (Z.to_nat i)) = Some (last_or a1 None, Some x).
+Proof.
+  intros d a1 x a2 l i Hch Hf Hl Hs Ha1 Hi.
+  destruct (lsize d - i <? i).
+  - pose proof (chain_length _ _ _ _ _ _ _ _ Hch) as Hlen. rewrite app_length in Hlen. simpl in Hlen.
+    replace (Z.to_nat (lsize d - 1 - i)) with (length (rev a2)).
+    2: { rewrite rev_length, Hs. unfold zlen. lia. }
+    pose proof (chain_rev_split _ _ _ _ _ _ _ Hch) as Hr.
+    rewrite Hl, hd_or_rev_split.
+    pose proof (chain_walk_back2 true cnext _ (rev a2) (x :: rev a1) _ _ _ ltac:(discriminate) Hr) as Hw.
+    simpl tl at 2 in Hw. simpl hd_or at 4 in Hw. rewrite hd_or_rev in Hw.
+    destruct (rev a2 ++ x :: rev a1) as [|z R] eqn:ER.
+    { destruct (rev a2); discriminate ER. }
+    destruct (rev l) as [|w lr]; simpl in Hr; [contradiction|].
+    destruct Hr as [(cz & Hcz & _ & Hnz & _) _].
+    simpl hd_or. simpl deref. rewrite Hcz, Hnz. simpl tl in Hw. simpl hd_or in Hw. exact Hw.
+  - rewrite Hf, <- Ha1. exact (chain_walk_track _ _ _ _ _ _ _ None Hch).
+Qed.
+
+Theorem cdll_insert_ok : forall d l i vs, repr_dll d l ->
+  exists d', cdll_insert d i vs = Some d' /\ repr_dll d' (dll_insert i vs l).
+Proof.
+  intros d l i vs H. pose proof H as (al & Hnd & Hlt & Hch & Hf & Hl & Hs).
+  unfold cdll_insert, dll_insert. rewrite (c_within_eq _ l) by exact Hs.
+  destruct (within i l) eqn:W; simpl negb; cbv iota.
+  2: { rewrite Hs. destruct (i =? zlen l); [apply cdll_add_ok; exact H|exists d; auto]. }
+  destruct vs as [|v0 vs']; [exists d; auto|].
+  destruct (chain_split_within _ _ _ _ _ _ _ Hch W) as (a1 & x & a2 & l1 & v & l2 & -> & -> & Ha1 & Hl1).
+  pose proof W as W'. apply within_spec in W'.
+  rewrite (cdll_insert_locate _ _ _ _ _ _ Hch Hf Hl Hs Ha1) by lia.
+  rewrite firstn_exact, skipn_exact by lia.
+  set (n0 := lnext_addr d).
+  destruct (list_snoc_cases _ a1) as [->|(a0 & b & ->)].
+  - 
+    (* the head case *)
+    destruct l1 as [|w l1]; [|simpl in Ha1, Hl1; lia].
+    assert (Ei : i =? 0 = true). { apply Z.eqb_eq. simpl in Ha1. lia. }
+    rewrite Ei. simpl app. simpl app in Hch, Hnd, Hlt, Hf, Hl, Hs. simpl hd_or in Hf. rewrite Hf, ptr_eqb_refl.
+    cbn [cdll_ins_head_loop alloc]. lsimpl. rewrite cdll_ins_head_loop_S. fold n0.
+    set (d2 := set_first _ _).
+    pose proof (Forall_lt_notin _ _ Hlt) as Hfresh. fold n0 in Hfresh, Hlt.
+    destruct (link_loop_ok true dll_link dll_link_ok vs' d2 None [] n0 [v0] None) as
+      (d' & nxt' & E & Hf' & Hl' & Hs' & Hn' & Hch' & Hfr').
+    { subst d2. lsimpl. simpl. split; [|exact I]. eexists. rewrite hread_same. repeat split; auto. }
+    { constructor; [intros []|constructor]. }
+    { subst d2. lsimpl. constructor; [lia|constructor]. }
+    subst d2. lsimpl_in E. lsimpl_in Hf'. lsimpl_in Hl'. lsimpl_in Hs'. lsimpl_in Hn'. lsimpl_in Hch'. lsimpl_in Hfr'.
+    fold n0 in E, Hn', Hch', Hfr'. rewrite E.
+    assert (Hc2 : fchain true (lheap d') None (x :: a2) (v :: l2) None).
+    { apply (chain_frame _ _ _ (lheap d)); [|exact Hch]. intros a Ha.
+      assert (Han : (a < n0)%nat). { rewrite Forall_forall in Hlt. exact (Hlt _ Ha). }
+      rewrite Hfr' by lia. apply hread_other. lia. }
+    destruct (last_or_In ([] ++ [n0] ++ seq (S n0) (length vs')) None) as (m & Hm & _); [discriminate|].
+    simpl app in Hm. simpl last_or in Hm. simpl app in Hch'.
+    destruct (dll_finish _ _ (n0 :: seq (S n0) (length vs')) _ _ x a2 _ None m Hm Hch' Hc2) as (h1 & h2 & Hst1 & Hst2 & Hfin).
+    { apply (NoDup_insert_seq [] (x :: a2) n0 (S (length vs'))); [exact Hnd|exact Hlt]. }
+    rewrite Hm, Hst1, Hst2. eexists. split; [reflexivity|].
+    exists ((n0 :: seq (S n0) (length vs')) ++ x :: a2). lsimpl. rsplit.
+    + apply (NoDup_insert_seq [] (x :: a2) n0 (S (length vs'))); [exact Hnd|exact Hlt].
+    + rewrite Hn'. replace (S n0 + length vs')%nat with (n0 + S (length vs'))%nat by lia.
+      apply (Forall_insert_seq [] (x :: a2) n0 (S (length vs'))). exact Hlt.
+    + exact Hfin.
+    + exact Hf'.
+    + rewrite Hl', Hl, last_or_app. reflexivity.
+    + rewrite Hs', Hs. change (v0 :: vs' ++ v :: l2) with ((v0 :: vs') ++ v :: l2).
+      rewrite (zlen_app' _ (v0 :: vs')). lia.
+  - (* the middle case *)
+    assert (Ei : i =? 0 = false). { apply Z.eqb_neq. rewrite app_length in Ha1. simpl in Ha1. lia. }
+    rewrite Ei. destruct (NoDup_mid _ _ _ Hnd) as (Hx1 & Hx2 & Hnd1 & Hnd2 & Hdisj).
+    rewrite Hf, hd_or_app, ptr_eqb_hd_false; [|apply snoc_not_nil|exact Hx1].
+    rewrite last_or_snoc. simpl deref.
+    pose proof Hch as Hch0. apply chain_app in Hch0; [|lia]. destruct Hch0 as [Hc1 Hc2].
+    simpl hd_or in Hc1. rewrite last_or_snoc in Hc2.
+    destruct (chain_last_cell _ _ _ _ _ _ _ Hc1) as (cb & Hcb & Hnb). rewrite Hcb, Hnb.
+    rewrite cdll_ins_mid_loop_eq.
+    destruct (link_loop_ok true dll_link dll_link_ok (v0 :: vs') d None a0 b l1 (Some x)) as
+      (d' & nxt' & E & Hf' & Hl' & Hs' & Hn' & Hch' & Hfr').
+    { exact Hc1. }
+    { exact Hnd1. }
+    { apply Forall_app in Hlt. tauto. }
+    fold n0 in E, Hn', Hch', Hfr', Hlt. rewrite E.
+    assert (Hc2' : fchain true (lheap d') (Some b) (x :: a2) (v :: l2) None).
+    { apply (chain_frame _ _ _ (lheap d)); [|exact Hc2]. intros a Ha.
+      assert (Han : (a < n0)%nat).
+      { rewrite Forall_forall in Hlt. apply Hlt. apply in_or_app. right. exact Ha. }
+      apply Hfr'; [|exact Han]. intro He. subst a.
+      apply (Hdisj b); [apply in_or_app; right; left; reflexivity|].
+      destruct Ha as [Ha|Ha]; [|exact Ha]. exfalso. apply Hx1. subst x. apply in_or_app. right. left. reflexivity. }
+    destruct (last_or_In ((a0 ++ [b]) ++ seq n0 (length (v0 :: vs'))) None) as (m & Hm & _).
+    { simpl. intro He. apply app_eq_nil in He. destruct He as [_ He]. discriminate He. }
+    assert (Hm' : last_or (seq n0 (length (v0 :: vs'))) (Some b) = Some m).
+    { rewrite last_or_app, last_or_snoc in Hm. exact Hm. }
+    destruct (dll_finish _ _ _ _ _ x a2 _ (Some b) m Hm Hch' Hc2') as (h1 & h2 & Hst1 & Hst2 & Hfin).
+    { apply NoDup_insert_seq; [exact Hnd|exact Hlt]. }
+    rewrite Hm', Hst1, Hst2. eexists. split; [reflexivity|].
+    exists (((a0 ++ [b]) ++ seq n0 (length (v0 :: vs'))) ++ x :: a2). lsimpl. rsplit.
+    + apply NoDup_insert_seq; [exact Hnd|exact Hlt].
+    + rewrite Hn'. apply Forall_insert_seq. exact Hlt.
+    + rewrite <- (app_assoc l1) in Hfin. exact Hfin.
+    + rewrite Hf', Hf, !hd_or_app. destruct a0; reflexivity.
+    + rewrite Hl', Hl, !last_or_app. reflexivity.
+    + rewrite Hs', Hs, !zlen_app'. lia.
+Qed.
+
+(* ================= Clear, Sort ================= *)
+Theorem c_clear_ok : forall dbl d, repr dbl (c_clear d) [].
+Proof. exact repr_clear. Qed.
+
+Theorem csll_clear_ok : forall d l, repr_sll d l -> exists d', csll_clear d = Some d' /\ repr_sll d' [].
+Proof. intros d l _. eexists. split; [reflexivity|]. apply repr_clear. Qed.
+Theorem cdll_clear_ok : forall d l, repr_dll d l -> exists d', cdll_clear d = Some d' /\ repr_dll d' [].
+Proof. intros d l _. eexists. split; [reflexivity|]. apply repr_clear. Qed.
+
+(* Sort: Values(), Clear(), Add(sorted values...) *)
+Theorem csll_sort_ok : forall d l res, repr_sll d l ->
+  exists d', csll_sort d res = Some d' /\ repr_sll d' (if zlen l <? 2 then l else res).
+Proof.
+  intros d l res H. unfold csll_sort. rewrite (c_values_ok _ _ _ H).
+  pose proof H as (al & _ & _ & _ & _ & _ & Hs). rewrite Hs.
+  destruct (zlen l <? 2); [exists d; auto|].
+  destruct (csll_add_ok (c_clear d) [] res (repr_clear _ _)) as (d' & E & Hr).
+  rewrite sll_add_app in Hr. exists d'. auto.
+Qed.
+Theorem cdll_sort_ok : forall d l res, repr_dll d l ->
+  exists d', cdll_sort d res = Some d' /\ repr_dll d' (if zlen l <? 2 then l else res).
+Proof.
+  intros d l res H. unfold cdll_sort. rewrite (c_values_ok _ _ _ H).
+  pose proof H as (al & _ & _ & _ & _ & _ & Hs). rewrite Hs.
+  destruct (zlen l <? 2); [exists d; auto|].
+  destruct (cdll_add_ok (c_clear d) [] res (repr_clear _ _)) as (d' & E & Hr).
+  unfold dll_add in Hr. rewrite sll_add_app in Hr. exists d'. auto.
+Qed.
+
+(* ================= every machine operation, every history ================= *)
+Theorem sll_cells_step_ok : forall d l o, repr_sll d l ->
+  exists d', sll_cells_step d o = Some d' /\ repr_sll d' (seq_of_op l o).
+Proof.
+  intros d l o H.
+  destruct o as [vs|vs|vs|i vs|i v|i|i j|ci res|vs|v|vs| |v| |k v|k| |dd|cs| |p|p|p|p|f|b|b|b| | | | |ci res];
+    cbn [sll_cells_step seq_of_op]; try (exists d; split; [reflexivity|exact H]).
+  - rewrite <- sll_add_seq. apply csll_add_ok. exact H.
+  - rewrite <- sll_add_seq. apply csll_add_ok. exact H.
+  - rewrite <- sll_prepend_seq. apply csll_prepend_ok. exact H.
+  - rewrite <- sll_insert_eq. apply csll_insert_ok. exact H.
+  - rewrite <- sll_set_eq. apply csll_set_ok. exact H.
+  - rewrite <- sll_remove_eq. apply csll_remove_ok. exact H.
+  - rewrite <- sll_swap_eq. apply c_swap_ok. exact H.
+  - unfold cells_sort. rewrite (walk_fwd_ok _ _ _ H).
+    destruct (csll_sort_ok d l (if sort_okb (cmp_of ci) l res then res else isort (cmp_of ci) l) H) as (d' & E & Hr).
+    exists d'. split; [exact E|].
+    destruct (zlen l <? 2); [exact Hr|]. destruct (sort_okb (cmp_of ci) l res); exact Hr.
+  - apply (csll_clear_ok d l H).
+  - destruct dd as [| |vs|kvs]; try (exists d; split; [reflexivity|exact H]).
+    + exact (csll_add_ok (c_clear d) [] [] (repr_clear _ _)).
+    + destruct (csll_add_ok (c_clear d) [] vs (repr_clear _ _)) as (d' & E & Hr).
+      rewrite sll_add_app in Hr. exists d'. auto.
+Qed.
+
+Theorem dll_cells_step_ok : forall d l o, repr_dll d l ->
+  exists d', dll_cells_step d o = Some d' /\ repr_dll d' (seq_of_op l o).
+Proof.
+  intros d l o H.
+  destruct o as [vs|vs|vs|i vs|i v|i|i j|ci res|vs|v|vs| |v| |k v|k| |dd|cs| |p|p|p|p|f|b|b|b| | | | |ci res];
+    cbn [dll_cells_step seq_of_op]; try (exists d; split; [reflexivity|exact H]).
+  - rewrite <- dll_add_seq. apply cdll_add_ok. exact H.
+  - rewrite <- dll_add_seq. apply cdll_add_ok. exact H.
+  - rewrite <- dll_prepend_seq. apply cdll_prepend_ok. exact H.
+  - rewrite <- dll_insert_eq. apply cdll_insert_ok. exact H.
+  - rewrite <- dll_set_eq. apply cdll_set_ok. exact H.
+  - rewrite <- dll_remove_eq. apply cdll_remove_ok. exact H.
+  - rewrite <- dll_swap_eq. apply c_swap_ok. exact H.
+  - unfold cells_sort. rewrite (walk_fwd_ok _ _ _ H).
+    destruct (cdll_sort_ok d l (if sort_okb (cmp_of ci) l res then res else isort (cmp_of ci) l) H) as (d' & E & Hr).
+    exists d'. split; [exact E|].
+    destruct (zlen l <? 2); [exact Hr|]. destruct (sort_okb (cmp_of ci) l res); exact Hr.
+  - apply (cdll_clear_ok d l H).
+  - destruct dd as [| |vs|kvs]; try (exists d; split; [reflexivity|exact H]).
+    + exact (cdll_add_ok (c_clear d) [] [] (repr_clear _ _)).
+    + destruct (cdll_add_ok (c_clear d) [] vs (repr_clear _ _)) as (d' & E & Hr).
+      unfold dll_add in Hr. rewrite sll_add_app in Hr. exists d'. auto.
+Qed.
+
+(* which representation a kind uses (cells_step: the singly linked cells for SinglyLinkedList, the
+   doubly linked ones otherwise) *)
+Definition repr_kind (k : kind) : llist -> list Z -> Prop :=
+  match k with SinglyLinkedList => repr_sll | _ => repr_dll end.
+
+Theorem cells_step_ok : forall k d l o, repr_kind k d l ->
+  exists d', cells_step k d o = Some d' /\ repr_kind k d' (seq_of_op l o).
+Proof.
+  intros k d l o H. destruct k; cbn [cells_step repr_kind] in *;
+    first [apply sll_cells_step_ok; exact H | apply dll_cells_step_ok; exact H].
+Qed.
+
+Theorem cells_run_from_ok : forall k ops d l, repr_kind k d l ->
+  exists d', cells_run_from k d ops = Some d' /\ repr_kind k d' (fold_left seq_of_op ops l).
+Proof.
+  intros k. induction ops as [|o ops IH]; intros d l H.
+  - exists d. split; [reflexivity|exact H].
+  - destruct (cells_step_ok k d l o H) as (d1 & E1 & H1).
+    unfold cells_run_from in *. cbn [foldM fold_left]. rewrite E1. exact (IH _ _ H1).
+Qed.
+
+Lemma repr_kind_empty : forall k, repr_kind k empty_llist [].
+Proof. intros k. destruct k; apply repr_empty. Qed.
+
+(* the run-level refinement: no history makes the pointer code dereference nil, and the final heap
+   represents the sequence computed by the sequence-level model *)
+Theorem cells_run_ok : forall k ops,
+  exists d, cells_run k ops = Some d /\ repr_kind k d (seq_run ops).
+Proof. intros k ops. exact (cells_run_from_ok k ops empty_llist [] (repr_kind_empty k)). Qed.
+
+Theorem cells_run_never_nil : forall k ops, cells_run k ops <> None.
+Proof. intros k ops. destruct (cells_run_ok k ops) as (d & E & _). rewrite E. discriminate. Qed.
+
+(* ... and that sequence is the state of the executable machine *)
+Lemma has_append_list : forall k, has_append k = true -> is_list_kind k = true.
+Proof. intros k H. destruct k; try discriminate H; reflexivity. Qed.
+Lemma offered_all : forall k ops, has_append k = true -> forallb (offered k) ops = true.
+Proof. intros k ops H. apply forallb_forall. intros o _. destruct o; cbn [offered]; auto. Qed.
+
+Theorem cells_run_machine : forall c ops, has_append (ckind c) = true ->
+  exists d, cells_run (ckind c) ops = Some d /\
+    run c ops = StSeq (seq_run ops) /\
+    repr_kind (ckind c) d (values_of c (run c ops)).
+Proof.
+  intros c ops Hk. destruct (cells_run_ok (ckind c) ops) as (d & E & Hr).
+  pose proof (has_append_list _ Hk) as Hlk.
+  assert (Hrun : run c ops = StSeq (seq_run ops)).
+  { rewrite (C03_refines c ops Hlk). rewrite (abs_run_offered c ops (offered_all _ ops Hk)). reflexivity. }
+  exists d. split; [exact E|]. split; [exact Hrun|].
+  rewrite Hrun, (values_of_list c _ Hlk). exact Hr.
+Qed.
+
+(* the observers of the pointer code on any reachable heap *)
+Theorem cells_run_observers : forall k ops,
+  exists d, cells_run k ops = Some d /\
+    let l := seq_run ops in
+    lsize d = zlen l /\
+    c_values d = Some l /\
+    walk_fwd d = Some l /\
+    (forall vs, c_contains d vs = Some (seq_contains vs l)) /\
+    (forall v, c_index_of d v = Some (seq_index_of v l)) /\
+    (forall i, (if match k with SinglyLinkedList => true | _ => false end then csll_get d i else cdll_get d i)
+               = Some (seq_get i l)) /\
+    (k <> SinglyLinkedList -> walk_bwd d = Some (rev l)).
+Proof.
+  intros k ops. destruct (cells_run_ok k ops) as (d & E & Hr). exists d. split; [exact E|].
+  assert (Hs : repr_sll d (seq_run ops)).
+  { destruct k; cbn [repr_kind] in Hr; first [exact Hr|apply repr_dll_sll; exact Hr]. }
+  cbv zeta. split; [destruct Hs as (al & _ & _ & _ & _ & _ & Hsz); exact Hsz|].
+  split; [exact (c_values_ok _ _ _ Hs)|]. split; [exact (walk_fwd_ok _ _ _ Hs)|].
+  split; [intros vs; rewrite <- sll_contains_eq; exact (c_contains_ok _ _ _ vs Hs)|].
+  split; [intros v; rewrite <- sll_index_of_eq; exact (c_index_of_ok _ _ _ v Hs)|].
+  split.
+  - intros i. destruct k; cbn [repr_kind] in Hr;
+      first [rewrite <- sll_get_eq; exact (csll_get_ok _ _ i Hr) | rewrite <- dll_get_eq; exact (cdll_get_ok _ _ i Hr)].
+  - intros Hne. destruct k; cbn [repr_kind] in Hr; first [congruence | exact (walk_bwd_ok _ _ Hr)].
+Qed.
+
+(* ================= what `repr` says about the list header ================= *)
+Theorem repr_header : forall dbl d l, repr dbl d l ->
+  lsize d = zlen l /\
+  (lfirst d = None <-> l = []) /\ (llast d = None <-> l = []) /\
+  (forall c, deref (lheap d) (llast d) = Some c -> cnext c = None) /\
+  (dbl = true -> forall c, deref (lheap d) (lfirst d) = Some c -> cprev c = None) /\
+  (forall v, l = [v] -> lfirst d = llast d).
+Proof.
+  intros dbl d l (al & Hnd & Hlt & Hch & Hf & Hl & Hs).
+  split; [exact Hs|].
+  destruct (chain_cases _ _ _ _ _ _ Hch) as [[-> ->]|(a & al' & w & l' & -> & ->)].
+  - simpl in Hf, Hl. rewrite Hf, Hl. repeat split; auto; try discriminate.
+  - split; [rewrite Hf; split; discriminate|].
+    destruct (last_or_In (a :: al') None) as (z & Hz & _); [discriminate|].
+    split; [rewrite Hl, Hz; split; discriminate|]. split; [|split].
+    + intros c Hc. rewrite Hl in Hc.
+      destruct (list_snoc_cases _ (a :: al')) as [He|(a0 & b & He)]; [discriminate He|].
+      rewrite He in Hch, Hc. rewrite last_or_snoc in Hc. simpl in Hc.
+      destruct (chain_last_cell _ _ _ _ _ _ _ Hch) as (cb & Hcb & Hn). congruence.
+    + intros Hd c Hc. rewrite Hf in Hc. simpl in Hc, Hch.
+      destruct Hch as [(c' & Hc' & _ & _ & Hp) _]. rewrite Hc' in Hc. inversion Hc as [Hcc]. rewrite <- Hcc. exact (Hp Hd).
+    + intros v Hv. inversion Hv; subst. simpl in Hch. destruct al'; [|destruct Hch as [_ []]].
+      rewrite Hf, Hl. reflexivity.
 Qed.
